@@ -807,19 +807,54 @@ const COUNT_POOL: [i128; 12] =
 
 /// Argument values for the query's variables: valid for the inferred types, deliberately
 /// including accepted-but-unusual values.
-pub fn gen_args(q: &QueryAst, t: &mut Tape) -> BTreeMap<String, FieldValue> {
+pub fn gen_args(q: &QueryAst, world: &World, t: &mut Tape) -> BTreeMap<String, FieldValue> {
+    // Strings that occur in the dataset (property values and type names): filters on strings
+    // would otherwise rarely match anything but the small generic pool.
+    let mut strs: Vec<String> = vec![];
+    for v in &world.vertices {
+        for x in v.props.values() {
+            collect_strings(x, &mut strs);
+        }
+    }
+    for ty in &world.schema.types {
+        strs.push(ty.name.clone());
+    }
+    strs.sort();
+    strs.dedup();
+    strs.truncate(32);
     let mut out = BTreeMap::new();
     for v in &q.vars {
-        let val = if v.regex && matches!(v.ty, Ty::Named(Base::Str, _)) && t.chance(1, 2) {
+        let mut val = if v.regex && matches!(v.ty, Ty::Named(Base::Str, _)) && t.chance(1, 2) {
             mk_str(REGEX_POOL[t.draw(8) as usize])
         } else if v.count {
             gen_count_arg(&v.ty, t)
         } else {
             gen_fv(&v.ty, t)
         };
+        if v.ty.base() == Base::Str && !strs.is_empty() && t.chance(1, 2) {
+            val = replace_strings(&val, &strs, t);
+        }
         out.insert(v.name.clone(), val);
     }
     out
+}
+
+fn collect_strings(v: &FieldValue, out: &mut Vec<String>) {
+    match v {
+        FieldValue::String(s) => out.push(s.to_string()),
+        FieldValue::List(l) => l.iter().for_each(|x| collect_strings(x, out)),
+        _ => {}
+    }
+}
+
+fn replace_strings(v: &FieldValue, strs: &[String], t: &mut Tape) -> FieldValue {
+    match v {
+        FieldValue::String(_) => mk_str(&strs[t.draw(strs.len() as u32) as usize]),
+        FieldValue::List(l) => {
+            FieldValue::List(l.iter().map(|x| replace_strings(x, strs, t)).collect::<Vec<_>>().into())
+        }
+        other => other.clone(),
+    }
 }
 
 fn gen_count_arg(ty: &Ty, t: &mut Tape) -> FieldValue {
